@@ -405,6 +405,15 @@ func cmdCheck(id, tier string) int {
 				okEnd = true
 			}
 			same := okEnd
+			stubFault := false
+			for k, v := range s.S.Inputs {
+				if b, ok := v.(bool); ok && b && strings.HasSuffix(k, "!err") {
+					stubFault = true // a fault injected by a stub (marshal error): not reproducible natively
+				}
+			}
+			if stubFault {
+				continue
+			}
 			if s.S.End == vexec.EndReturn && okEnd {
 				same = reflect.DeepEqual(norm(s.S.Obs), norm(r.Obs))
 			}
